@@ -14,7 +14,7 @@ impl VHDLServer {
     ) -> Option<PrepareRenameResponse> {
         let source = self
             .project
-            .get_source(&uri_to_file_name(&params.text_document.uri))?;
+            .get_source(&uri_to_file_name(&params.text_document.uri)?)?;
 
         let (pos, ent) = self
             .project
@@ -33,7 +33,7 @@ impl VHDLServer {
     pub fn rename(&mut self, params: &RenameParams) -> Option<WorkspaceEdit> {
         let source = self.project.get_source(&uri_to_file_name(
             &params.text_document_position.text_document.uri,
-        ))?;
+        )?)?;
 
         let ent = self.project.find_declaration(
             &source,
